@@ -960,7 +960,7 @@ def run(tier: str, replay: str | None = None):
         cases += load_corpus()
         # every (single value, leaf condition) pair in both tiers
         cases += [((s,), l) for s in svals for l in leaves]
-        n_rand = 1200 if tier == "quick" else 20000
+        n_rand = 1200 if tier == "quick" else 60000
         for _ in range(n_rand):
             cases.append((gen_value(rng, svals), gen_cond(rng, leaves, 2)))
     objs = universe_objects()
